@@ -1437,6 +1437,6 @@ var subFault = runlog.Register(&runlog.Sub[Case]{
 	Run:  runCase,
 })
 
-func TestUnpackFault(t *testing.T) { subFault.Check(t, 100000, 3000000) }
+func TestUnpackFault(t *testing.T) { subFault.Check(t, 90000, 3000000) }
 
 func TestReplay(t *testing.T) { runlog.ReplayMain(t) }
